@@ -397,4 +397,63 @@ theorem C09_children_queries (x : String) (t : Tree) :
     findChild x t = t.children.find? (fun c => c.name == x) ∧ findAllChildren x t = t.children.filter (fun c => c.name == x) :=
   ⟨rfl, rfl⟩
 
+theorem childIndex_go_spec (cid : String) : ∀ (cs : List Tree) (k : Nat),
+    childIndex.go cid cs k = (cs.findIdx? (fun c => c.id == cid)).map (· + k)
+  | [], k => by simp [childIndex.go]
+  | c :: cs, k => by
+    simp only [childIndex.go, List.findIdx?_cons]
+    by_cases h : (c.id == cid) = true
+    · simp [h]
+    · have h' : (c.id == cid) = false := by simpa using h
+      simp only [h', Bool.false_eq_true, if_false, childIndex_go_spec cid cs (k + 1), Option.map_map]
+      congr 1
+      funext x
+      simp only [Function.comp]
+      omega
+
+/-- `child_index`: the position of the first child with that identity, `None` when it is not a child -/
+theorem C09_child_index (t : Tree) (cid : String) :
+    childIndex t cid = t.children.findIdx? (fun c => c.id == cid) := by
+  unfold childIndex
+  rw [childIndex_go_spec]
+  simp
+
+/-- each element is the parent of the next one -/
+def ParentChain (F : Forest) : List Nat → Prop
+  | [] => True
+  | [_] => True
+  | a :: b :: r => F.parent b = some a ∧ ParentChain F (b :: r)
+
+theorem ancestryAux_chain (F : Forest) : ∀ (fuel n : Nat) (acc : List Nat), ParentChain F (n :: acc) →
+    ParentChain F (ancestryAux F fuel n acc) ∧
+    (∀ x, (n :: acc).getLast? = some x → fuel ≠ 0 → (ancestryAux F fuel n acc).getLast? = some x)
+  | 0, n, acc, h => by
+    simp only [ancestryAux]
+    refine ⟨?_, fun x _ hf => absurd rfl hf⟩
+    cases acc with
+    | nil => trivial
+    | cons a r => cases r <;> simp only [ParentChain] at h ⊢ <;> first | trivial | exact h.2
+  | fuel + 1, n, acc, h => by
+    simp only [ancestryAux]
+    cases hp : F.parent n with
+    | none => exact ⟨h, fun x hx _ => hx⟩
+    | some p =>
+      simp only
+      have hc : ParentChain F (p :: n :: acc) := by simp only [ParentChain]; exact ⟨hp, h⟩
+      obtain ⟨h1, h2⟩ := ancestryAux_chain F fuel p (n :: acc) hc
+      refine ⟨h1, fun x hx _ => ?_⟩
+      cases fuel with
+      | zero =>
+        simp only [ancestryAux]
+        exact hx
+      | succ f =>
+        apply h2 x _ (by omega)
+        rw [List.getLast?_cons_cons]; exact hx
+
+/-- `get_ancestry`: the returned list is a chain of parent links that ends in the node itself -/
+theorem C09_ancestry (F : Forest) (fuel n : Nat) (hf : fuel ≠ 0) :
+    ParentChain F (ancestry F fuel n) ∧ (ancestry F fuel n).getLast? = some n := by
+  obtain ⟨h1, h2⟩ := ancestryAux_chain F fuel n [] trivial
+  exact ⟨h1, h2 n rfl hf⟩
+
 end Metapype
